@@ -130,6 +130,7 @@ def r3_terminator(prog, rep: Report, fam: Family):
         if f is None or f in seen:
             continue
         seen.add(f)
+        f = prog.resolve_view(c, fam.next_reader) or f       # private helpers inlined (an accessor that hands out the handle)
         rep.fn(f)
         handles = fam.handles[c.qual]
         flow = Flow(f.node)
